@@ -16,6 +16,10 @@ func buildListRequest(response j5schema.RootSchema) (*client_j5pb.ListRequest, e
 	if !ok {
 		return nil, fmt.Errorf("expected object schema, got %T", response)
 	}
+	if responseObj == nil {
+		// a method without a response schema returns a raw body
+		return nil, fmt.Errorf("no response body to list")
+	}
 
 	var foundArray *j5schema.ArrayField
 
